@@ -41,7 +41,7 @@ class Gen:
         d = r.choice(dst_pool)
         k = r.randrange(8)
         if k == 0:
-            self.emit(f"li {d}, {r.choice([0, 1, -1, 5, 10, 100, 0x7ff, -2048, 65536, 0x7fffffff])}")
+            self.emit(f"li {d}, {r.choice([0, 1, -1, 5, 10, 100, 0x7ff, -2048, 65536, 0x7fffffff, 955, 233, 8364, 92])}")
         elif k == 1:
             self.emit(f"addi {d}, {r.choice(src_pool)}, {r.choice([1, -1, 4, 8, -4])}")
         elif k == 2:
